@@ -147,7 +147,7 @@ pub fn check_delivery(w: &World, plan: &Plan, prop: &str, is_async: bool) -> Opt
                     "0-requested-value",
                     "stale-buffer",
                     "send",
-                    format!("send #{}: the application built {} but the value in the (reused) send buffer reads {}", i, mp.expect_val.short(), a.val.short()),
+                    format!("send #{}: the application built {} but the value the sender holds reads {} (emplacement altered it, or it depends on the previous contents of the reused send buffer)", i, mp.expect_val.short(), a.val.short()),
                 );
             }
         }
@@ -282,6 +282,9 @@ pub fn check_faults(w: &World, plan: &Plan, prop: &str, _is_async: bool) -> Opti
         if r.saw_err_hard && !matches!(r.outcome, RecvOutcome::ReadErr(_) | RecvOutcome::Closed) {
             let o: String = format!("{:?}", r.outcome).chars().take(120).collect();
             return v(prop, "T2-surfacing", "error-swallowed", "recv", format!("recv #{}: the pipe returned a read error but recv() returned {}", i, o));
+        }
+        if matches!(r.outcome, RecvOutcome::Closed) && !(r.stream_exhausted || r.saw_eof || r.saw_err_hard) {
+            return v(prop, "R1-retry", "premature-closed", "recv", format!("recv #{} reported Closed although the stream had not ended and no read failed during this call", i));
         }
         if r.saw_eof && !matches!(r.outcome, RecvOutcome::Closed) {
             let o: String = format!("{:?}", r.outcome).chars().take(120).collect();
